@@ -5,12 +5,16 @@
   iterations write the same cell shows up as a "shared" entry and this theorem stops checking.
 
   Why these kinds are private: histogram row `counts[t]`, the thread's own block of `keys`, scatter through cursors `pointers[t, k]` (distinct slots: `scatter_indices_perm`), per-stripe sort on the stripe's own slice.
+
+  `loopvar`, `tid` (the executing thread's own row) and `local` (an array created inside the loop body) are
+  unconditionally private and allowed everywhere; `block` / `cursor` kinds are allowed only where a theorem of this
+  property proves the blocks / cursors disjoint.
 -/
 import AbacusVerif.Generated.PrangeC17
 
 namespace AbacusVerif.PrangeC17
 
-def allowedKinds : List String := ["loopvar", "block", "cursor", "local"]
+def allowedKinds : List String := ["loopvar", "tid", "local", "block", "block-shifted", "cursor"]
 
 /-- every store in every `prange` loop is of a private kind -/
 theorem prange_writes_private : ∀ e ∈ prangeWrites, e.2.2 ∈ allowedKinds := by decide +kernel
